@@ -36,6 +36,7 @@ def check(run):
         run.guard("C12.4.single-construction", cfg, lambda: rule_single(run, F, cfg))
         run.guard("C12.5.url-scanner-tables", cfg, lambda: rule_scanner(run, F, cfg))
         run.guard("C12.5.url-scanner-tables", cfg + "/brackets", lambda: rule_brackets(run, F, cfg))
+        run.guard("C12.5.url-scanner-tables", cfg + "/host-normalisation", lambda: rule_host_normalised(run, F, cfg))
 
 
 def rule_scheme(run, F, cfg):
@@ -277,3 +278,35 @@ def rule_brackets(run, F, cfg):
     run.ob("C12.5.url-scanner-tables", "host:colon-respects-brackets", ok,
            "a ':' in the host scan is followed by the test of the bracket flag (port separator only outside `[..]`)",
            config=cfg)
+
+
+def rule_host_normalised(run, F, cfg):
+    """parse_host writes the host in normalised form: lower-cased (ASCII branch) or through IDNA (which lower-cases
+    too), and tabs / newlines inside the host are dropped (WHATWG), not kept or counted"""
+    f = F.fn("url_parser::parser::Parser::parse_host")
+    writes = []
+    for b, t in f.calls(r"^std::fmt::Write::write_fmt$|^std::string::String::push_str$"):
+        if not f.vexpr_operand(t["args"][0]).endswith(".serialization"):
+            continue
+        prov = f.expr_operand(t["args"][1]) + " " + " ".join(sorted(f.deep_origins(t["args"][1])))
+        writes.append((bool(re.search(r"to_ascii_lowercase|to_lowercase|idna::domain_to_ascii", prov)), f.loc(b)))
+    run.ob("C12.5.url-scanner-tables", "host:lower-cased", len(writes) >= 2 and all(o for o, _ in writes),
+           "every write of the host into the serialization goes through to_ascii_lowercase or idna::domain_to_ascii: "
+           "`https://EXAMPLE.com/` has hostname example.com (rule hostnames are lower-cased, so an upper-case host "
+           f"would match no `||example.com^` rule and be third-party to itself) ({writes})", site=f.loc(0), config=cfg)
+    # ignored characters: either the input iterator skips them, or the slow path filters them explicitly
+    it = [g for n, g in F.fns.items() if n.endswith("Input<'i> as std::iter::Iterator>::next")]
+    skips = bool(it) and any(re.search(r"Iterator::find$|Iterator::filter$", strip_generics(t["callee"])) for b, t in it[0].calls())
+    filt = False
+    for b, t in f.calls(r"^std::iter::Iterator::filter$"):
+        c = dominating_conditions(f, b, render=f.vexpr_operand)
+        m = re.search(r"closure\[([^\]]+)\]", f.vexpr_call(t))
+        cl = F.fns.get(m.group(1)) if m else None
+        if cl is None or not any(re.match(r"^\$\w+$", k) and v == 1 for k, v in c.items()):
+            continue
+        sws = [cl.blocks[x]["t"] for x in sorted(cl.normal_blocks()) if cl.blocks[x]["t"]["k"] == "switch"]
+        filt = any(sorted(v for v, _ in sw["targets"]) == [9, 10, 13] for sw in sws) and cl.expr_local(0).startswith("Not(")
+    run.ob("C12.5.url-scanner-tables", "host:ignored-chars-dropped", skips or filt,
+           "tabs and newlines inside the host are removed: either Input::next skips them or the has_ignored_chars path "
+           "collects the scanned slice through a filter that rejects exactly \\t, \\n, \\r (otherwise "
+           "`http://exa\\tmple.com/` keeps the tab and loses the last character of the host)", site=f.loc(0), config=cfg)
